@@ -1189,3 +1189,20 @@ pub(crate) fn get_register(
         capstone_id
     )))
 }
+
+/// Verification hook: the (name, bits) of every scalar the register accessors of
+/// this table can produce for the given mode (only full-width registers become
+/// scalars; sub-registers are expressions over them).
+#[cfg(falconre_falcon_verif)]
+pub fn verif_registers(amd64: bool) -> Vec<(String, usize)> {
+    let registers: &[X86Register] = if amd64 {
+        AMD64REGISTERS
+    } else {
+        X86REGISTERS
+    };
+    registers
+        .iter()
+        .filter(|register| register.is_full())
+        .map(|register| (register.name.to_string(), register.bits))
+        .collect()
+}
